@@ -51,3 +51,12 @@ Print Assumptions kernel_equivariant.
    defect that the unfixed code had (base vertex added twice in the interior branch) *)
 Example nondegenerate_witness : nondegenerate (mkv 1 1 0) (mkv 2 1 0) (mkv 1 2 0).
 Proof. unfold nondegenerate. vunfold. cbn. lra. Qed.
+
+(* WHAT THE REGENERATED CODE DOES: the central statement of C05 about the translated function itself (kernel_gen at R): no point of
+   the triangle is closer to the query point than the distance it returns.  (kernel_gen and kernel are convertible: the proof is the
+   model's.) *)
+Theorem regenerated_kernel_returns_the_closest_point : forall p a b c : vR, nondegenerate a b c ->
+  forall s t, 0 <= s -> 0 <= t -> s + t <= 1 ->
+  k_dist (kernel_gen NumR p a b c) <= sqn (p -v tri_point a b c s t).
+Proof. exact closest_. Qed.
+Print Assumptions regenerated_kernel_returns_the_closest_point.
